@@ -1,8 +1,231 @@
-import Echse.Model.Scale
-namespace C15
-open Echse.Scale
+/-
+  C15 — calendar scale conversions (`scale.c`): Gregorian, the eight arithmetic Hijri scales
+  (types I..IV × astronomical/civil epoch, s = 1..8) and the two table Hijri scales
+  (9 Umm al-Qura, 10 Diyanet), for EVERY day of the Gregorian years 1901..2099
+  (day numbers `lo` .. `hi`, 72 684 days; day number = JDN − 2400000).
 
-/-- smoke (the enumeration theorems replace this) -/
-theorem hijri_iva_1440 : rescale 7 0 ⟨1440, 1, 1⟩ = some ⟨2018, 9, 11⟩ := by decide
+    1. Gregorian: `mjd2g` / `g2mjd` are mutually inverse between the day numbers `lo..hi` and the
+       valid dates of 1901..2099, agree with the calendar spec `Spec.Cal.days` (up to the constant
+       678880) and with the Sakamoto weekday `wdayGreg`.
+    2. s = 1..8: round trip, valid date, consecutive days map to consecutive dates with the month
+       lengths `scaleNdim` reports (`succDate`), weekday commutes.
+    3. s = 9, 10: every day number outside the table's span is rejected (nil date), inside the span
+       round trip / valid date / successor / weekday hold; months outside the table give 0.
+    4. the same as statements about `rescale`.
+
+  Parts 1, 2 are complete kernel enumerations (Echse/Lemmas/C15Greg*, C15Date*, C15Hij*; no sampling);
+  part 3 is a general theorem on the linear scan over any table with increasing month starts
+  (Echse/Lemmas/C15Tab) plus a kernel check of that property over the two generated tables.
+  Statements only; `ValidG`, `succDate`, `dLo`, `dHi`, `dayOff` are in Echse/Lemmas/C15Enum,
+  `GoodCal` in Echse/Lemmas/C15Tab.
+-/
+import Echse.Lemmas.C15All
+import Echse.Lemmas.C15Tab
+import Echse.Lemmas.C15Resc
+namespace C15
+open Echse.Scale Echse.Spec.Cal Echse.Gen
+
+/-- first and last day number covered: 1901-01-01 and 2099-12-31 -/
+def lo : Nat := g2mjd ⟨1901, 1, 1⟩
+def hi : Nat := g2mjd ⟨2099, 12, 31⟩
+
+theorem lo_eq : lo = 15386 := by decide
+theorem hi_eq : hi = 88069 := by decide
+/-- the range has 72 684 days -/
+theorem range_size : hi + 1 - lo = 72684 := by decide
+
+/-! ### 1. Gregorian -/
+
+/-- every day number of the range is a valid date of 1901..2099 that converts back, sits at the
+spec's day count `Spec.Cal.days` minus 678880, and has the weekday Sakamoto's formula gives. -/
+theorem greg_of_mjd (j : Nat) (h1 : lo ≤ j) (h2 : j ≤ hi) :
+    let g := mjd2g j
+    g2mjd g = j ∧
+    1901 ≤ g.y ∧ g.y ≤ 2099 ∧ 1 ≤ g.m ∧ g.m ≤ 12 ∧ 1 ≤ g.d ∧ g.d ≤ monthLen g.y g.m ∧
+    days g.y g.m g.d = (j : Int) + 678880 ∧
+    wdayGreg g.y g.m g.d = wdayOfMjd j := by
+  rw [lo_eq] at h1; rw [hi_eq] at h2
+  obtain ⟨a, b, c, d⟩ := chkG_spec j (chkG_all j h1 h2)
+  exact ⟨a, b.1, b.2.1, b.2.2.1, b.2.2.2.1, b.2.2.2.2.1, b.2.2.2.2.2, c, d.symm⟩
+
+/-- every valid date of 1901..2099 has its day number in the range and converts back. -/
+theorem greg_to_mjd (g : Ymd) (hy1 : 1901 ≤ g.y) (hy2 : g.y ≤ 2099) (hm1 : 1 ≤ g.m) (hm2 : g.m ≤ 12)
+    (hd1 : 1 ≤ g.d) (hd2 : g.d ≤ monthLen g.y g.m) :
+    lo ≤ g2mjd g ∧ g2mjd g ≤ hi ∧ mjd2g (g2mjd g) = g := by
+  rw [lo_eq, hi_eq]
+  have hv : ValidG g := ⟨hy1, hy2, hm1, hm2, hd1, hd2⟩
+  exact chkD_spec g hv (chkD_all _ (chkD_index g hv))
+
+/-- the model's day number is the spec's day count, shifted -/
+theorem greg_days (g : Ymd) (hy1 : 1901 ≤ g.y) (hy2 : g.y ≤ 2099) (hm1 : 1 ≤ g.m) (hm2 : g.m ≤ 12)
+    (hd1 : 1 ≤ g.d) (hd2 : g.d ≤ monthLen g.y g.m) :
+    days g.y g.m g.d = (g2mjd g : Int) + 678880 := by
+  obtain ⟨a, b, c⟩ := greg_to_mjd g hy1 hy2 hm1 hm2 hd1 hd2
+  have := (greg_of_mjd (g2mjd g) a b).2.2.2.2.2.2.2.1
+  rwa [c] at this
+
+/-- consecutive calendar days ↔ consecutive day numbers -/
+theorem greg_consecutive (g g' : Ymd) (hg : ValidG g) (hg' : ValidG g') :
+    days g'.y g'.m g'.d = days g.y g.m g.d + 1 ↔ g2mjd g' = g2mjd g + 1 := by
+  obtain ⟨a1, a2, a3, a4, a5, a6⟩ := hg
+  obtain ⟨b1, b2, b3, b4, b5, b6⟩ := hg'
+  rw [greg_days g a1 a2 a3 a4 a5 a6, greg_days g' b1 b2 b3 b4 b5 b6]
+  omega
+
+/-! ### 2. arithmetic Hijri scales 1..8 -/
+
+/-- for every day of the range and every arithmetic Hijri scale: round trip, valid date,
+the next day number is the next date by the reported month lengths, weekday commutes. -/
+theorem hijri_of_mjd (s : Nat) (hs1 : 1 ≤ s) (hs8 : s ≤ 8) (j : Nat) (h1 : lo ≤ j) (h2 : j ≤ hi) :
+    let t := scalTyp s
+    let e := scalEpo s
+    let h := mjd2hij t e j
+    let g := mjd2g j
+    hij2mjd t e h = j ∧
+    1 ≤ h.y ∧ 1 ≤ h.m ∧ h.m ≤ 12 ∧ 1 ≤ h.d ∧ h.d ≤ scaleNdim s h.y h.m ∧
+    mjd2hij t e (j + 1) = succDate s h ∧
+    scaleWday s h.y h.m h.d = wdayGreg g.y g.m g.d := by
+  intro t e h g
+  have hg := (greg_of_mjd j h1 h2).2.2.2.2.2.2.2.2
+  rw [lo_eq] at h1; rw [hi_eq] at h2
+  obtain ⟨a1, a2, a3, a4, a5, a6, a7⟩ := chkH_spec s j (chkH_all s hs1 hs8 j h1 h2)
+  refine ⟨a1, a2, a3, a4, a5, a6, a7, ?_⟩
+  rw [scaleWday_hij s hs1 hs8]
+  show wdayOfMjd (hij2mjd t e h) = _
+  rw [a1]; exact hg.symm
+
+/-! ### 3. table Hijri scales 9, 10 -/
+
+/-- first covered day number of the table of scale `s` and the first one after its last month -/
+def first (s : Nat) : Nat := calMT (tableOf s) 0
+def last (s : Nat) : Nat := calMT (tableOf s) (calNM (tableOf s) - 1)
+
+/-- both generated tables: month starts positive, below 2^32, increasing by 28..30 days
+(Umm al-Qura) resp. 29..30 days (Diyanet). -/
+theorem tables_good : GoodCal 28 datUmmulqura ∧ GoodCal 29 datDiyanet :=
+  ⟨goodCal_ummulqura, goodCal_diyanet⟩
+
+/-- ANY day number outside the table's span is rejected (never mapped to a wrong day). -/
+theorem table_reject (s : Nat) (_hs : s = 9 ∨ s = 10) (j : Nat) (h : j < first s ∨ last s ≤ j) :
+    mjd2ht (tableOf s) j = ⟨0, 0, 0⟩ :=
+  (goodCal_tableOf s).mjd2ht_reject j h
+
+/-- inside the span: non-nil, round trip, valid date, weekday, successor. -/
+theorem table_of_mjd (s : Nat) (hs : s = 9 ∨ s = 10) (j : Nat) (h1 : first s ≤ j) (h2 : j < last s) :
+    let h := mjd2ht (tableOf s) j
+    1 ≤ h.y ∧ ht2mjd (tableOf s) h = j ∧
+    1 ≤ h.m ∧ h.m ≤ 12 ∧ 1 ≤ h.d ∧ h.d ≤ ndimHt (tableOf s) h.y h.m ∧
+    scaleNdim s h.y h.m = ndimHt (tableOf s) h.y h.m ∧
+    scaleWday s h.y h.m h.d = wdayOfMjd j ∧
+    (j + 1 < last s → mjd2ht (tableOf s) (j + 1) = succDate s h) := by
+  intro h
+  have gc := goodCal_tableOf s
+  unfold first at h1; unfold last at h2
+  obtain ⟨n, n1, n2, n3, n4⟩ := gc.bracket_exists j h1 h2
+  have e : h = htDate (tableOf s) n j := gc.mjd2ht_bracket j n n1 n2 n3 n4
+  have rt : ht2mjd (tableOf s) h = j := by rw [e]; exact gc.ht2mjd_htDate j n n1 n2 n3 n4
+  have nd := gc.ndimHt_htDate j n n1 n2
+  refine ⟨?_, rt, ?_, ?_, ?_, ?_, scaleNdim_tab s hs _ _, ?_, ?_⟩
+  · rw [e]; show 1 ≤ (n + calSM (tableOf s) - 1) / 12 + 1; omega
+  · rw [e]; show 1 ≤ (n + calSM (tableOf s) - 1) % 12 + 1; omega
+  · rw [e]; show (n + calSM (tableOf s) - 1) % 12 + 1 ≤ 12; omega
+  · rw [e]; show 1 ≤ j - calMT (tableOf s) (n - 1) + 1; omega
+  · rw [e, nd]; show j - calMT (tableOf s) (n - 1) + 1 ≤ _; omega
+  · rw [scaleWday_tab s hs]
+    show wdayOfMjd (ht2mjd (tableOf s) h) = _
+    rw [rt]
+  · intro h5
+    rw [succDate_tab s hs, e]
+    exact gc.succ_htDate j n n1 n2 n3 n4 h5
+
+/-- the table weekday is the Gregorian weekday (days of 1901..2099) -/
+theorem table_wday_greg (j : Nat) (h1 : lo ≤ j) (h2 : j ≤ hi) :
+    wdayOfMjd j = wdayGreg (mjd2g j).y (mjd2g j).m (mjd2g j).d :=
+  ((greg_of_mjd j h1 h2).2.2.2.2.2.2.2.2).symm
+
+/-- months in the table have 28..30 days (Diyanet: 29..30) -/
+theorem table_ndim_range (s : Nat) (_hs : s = 9 ∨ s = 10) (y m : Nat)
+    (h0 : 0 ≤ ((y : Int) - 1) * 12 + ((m : Int) - 1) - calSM (tableOf s))
+    (h1 : ((y : Int) - 1) * 12 + ((m : Int) - 1) - calSM (tableOf s) < (calNM (tableOf s) : Int) - 1) :
+    (if s = 9 then 28 else 29) ≤ ndimHt (tableOf s) y m ∧ ndimHt (tableOf s) y m ≤ 30 := by
+  unfold tableOf at *
+  split
+  · rename_i e; simp only [e, if_true] at h0 h1 ⊢
+    exact goodCal_ummulqura.ndimHt_inside y m h0 h1
+  · rename_i e; simp only [e, if_false] at h0 h1 ⊢
+    exact goodCal_diyanet.ndimHt_inside y m h0 h1
+
+/-- months outside the table (`y ≤ 4095`, `m ≤ 15`: the instant's bit fields): `ht2mjd` gives 0 … -/
+theorem table_ht2mjd_outside (s : Nat) (_hs : s = 9 ∨ s = 10) (h : Ymd) (hy : h.y ≤ 4095) (hm : h.m ≤ 15)
+    (ho : ((h.y : Int) - 1) * 12 + ((h.m : Int) - 1) - calSM (tableOf s) < 0 ∨
+          (calNM (tableOf s) : Int) ≤ ((h.y : Int) - 1) * 12 + ((h.m : Int) - 1) - calSM (tableOf s)) :
+    ht2mjd (tableOf s) h = 0 :=
+  (goodCal_tableOf s).ht2mjd_outside h hy hm ho
+
+/-- … and `ndimHt` (hence `scaleNdim`) gives 0 (the last transition only closes the last month). -/
+theorem table_ndim_outside (s : Nat) (hs : s = 9 ∨ s = 10) (y m : Nat) (hy : y ≤ 4095) (hm : m ≤ 15)
+    (ho : ((y : Int) - 1) * 12 + ((m : Int) - 1) - calSM (tableOf s) < 0 ∨
+          (calNM (tableOf s) : Int) - 1 ≤ ((y : Int) - 1) * 12 + ((m : Int) - 1) - calSM (tableOf s)) :
+    scaleNdim s y m = 0 := by
+  rw [scaleNdim_tab s hs]
+  exact (goodCal_tableOf s).ndimHt_outside y m hy hm ho
+
+/-! ### 4. `rescale` -/
+
+/-- Gregorian → arithmetic Hijri → Gregorian is the identity on the valid dates of 1901..2099. -/
+theorem rescale_hijri (s : Nat) (hs1 : 1 ≤ s) (hs8 : s ≤ 8) (g : Ymd) (hg : ValidG g) :
+    ∃ h, rescale 0 s g = some h ∧ rescale s 0 h = some g := by
+  obtain ⟨a1, a2, a3, a4, a5, a6⟩ := hg
+  obtain ⟨b1, b2, b3⟩ := greg_to_mjd g a1 a2 a3 a4 a5 a6
+  obtain ⟨c1, c2, _⟩ := hijri_of_mjd s hs1 hs8 (g2mjd g) b1 b2
+  refine ⟨mjd2hij (scalTyp s) (scalEpo s) (g2mjd g), ?_, ?_⟩
+  · rw [rescale_from_greg s hs1, ofMjd_hij s hs1 hs8 _ (by omega)]
+  · rw [rescale_hij_to_greg s hs1 hs8, c1, ofMjd_greg _ (by rw [b3]; omega), b3]
+
+/-- Gregorian → table Hijri → Gregorian is the identity where the table covers the day … -/
+theorem rescale_table (s : Nat) (hs : s = 9 ∨ s = 10) (g : Ymd) (hg : ValidG g)
+    (h1 : first s ≤ g2mjd g) (h2 : g2mjd g < last s) :
+    ∃ h, rescale 0 s g = some h ∧ rescale s 0 h = some g := by
+  obtain ⟨a1, a2, a3, a4, a5, a6⟩ := hg
+  obtain ⟨b1, b2, b3⟩ := greg_to_mjd g a1 a2 a3 a4 a5 a6
+  obtain ⟨c1, c2, _⟩ := table_of_mjd s hs (g2mjd g) h1 h2
+  have hlo : lo ≤ g2mjd g := b1
+  rw [lo_eq] at hlo
+  refine ⟨mjd2ht (tableOf s) (g2mjd g), ?_, ?_⟩
+  · rw [rescale_from_greg s (by omega), ofMjd_tab s hs, if_neg (by omega)]
+  · rw [rescale_tab_to_greg s hs _ (by rw [c2]; omega), c2, ofMjd_greg _ (by rw [b3]; omega), b3]
+
+/-- … and fails (no date, never a wrong one) where it does not. -/
+theorem rescale_table_none (s : Nat) (hs : s = 9 ∨ s = 10) (g : Ymd)
+    (h : g2mjd g < first s ∨ last s ≤ g2mjd g) : rescale 0 s g = none := by
+  rw [rescale_from_greg s (by omega), ofMjd_tab s hs, table_reject s hs _ h]
+  rfl
+
+/-! ### concrete instances -/
+
+example : rescale 7 0 ⟨1440, 1, 1⟩ = some ⟨2018, 9, 11⟩ := by decide
+example : rescale 0 7 ⟨2018, 9, 11⟩ = some ⟨1440, 1, 1⟩ := by decide
+example : rescale 0 8 ⟨2018, 9, 11⟩ = some ⟨1440, 1, 2⟩ := by decide
+example : succDate 7 ⟨1439, 12, 29⟩ = ⟨1440, 1, 1⟩ ∧ succDate 7 ⟨1440, 1, 30⟩ = ⟨1440, 2, 1⟩ := by decide
+example : rescale 0 1 ⟨1901, 1, 1⟩ = some ⟨1318, 9, 10⟩ := by decide
+example : rescale 0 2 ⟨2099, 12, 31⟩ = some ⟨1523, 10, 19⟩ := by decide
+-- the hypotheses of `greg_to_mjd` are inhabited by leap days, and exclude 1900-02-29
+example : ValidG ⟨2000, 2, 29⟩ ∧ ¬ ValidG ⟨1900, 2, 29⟩ ∧ ¬ ValidG ⟨2001, 2, 29⟩ := by decide
+-- Umm al-Qura / Diyanet coverage and a day outside it
+example : (first 9, last 9) = (28607, 79990) ∧ (first 10, last 10) = (15141, 59938) := by decide +kernel
+example : rescale 0 9 ⟨2018, 9, 11⟩ = some ⟨1440, 1, 1⟩ := by decide +kernel
+example : rescale 9 0 ⟨1440, 1, 1⟩ = some ⟨2018, 9, 11⟩ := by decide +kernel
+example : rescale 0 10 ⟨2018, 9, 11⟩ = some ⟨1440, 1, 1⟩ := by decide +kernel
+example : mjd2g 28606 = ⟨1937, 3, 13⟩ ∧ rescale 0 9 ⟨1937, 3, 13⟩ = none ∧
+    rescale 0 9 ⟨1937, 3, 14⟩ = some ⟨1356, 1, 1⟩ := by decide +kernel
+example : rescale 0 9 ⟨2077, 11, 17⟩ = none := by decide +kernel
+example : rescale 9 0 ⟨1355, 12, 1⟩ = none ∧ rescale 9 0 ⟨1501, 2, 1⟩ = none := by decide +kernel
+-- the closing transition is itself accepted as a month by `ht2mjd` (index nm-1 < nm), although
+-- `mjd2ht` rejects its days and `scaleNdim` reports 0 days for it
+example : rescale 9 0 ⟨1501, 1, 1⟩ = some ⟨2077, 11, 17⟩ ∧ rescale 0 9 ⟨2077, 11, 17⟩ = none ∧
+    scaleNdim 9 1501 1 = 0 := by decide +kernel
+-- the bounds `y ≤ 4095`, `m ≤ 15` in `table_ht2mjd_outside` are needed: the `unsigned` month index
+-- wraps, so an absurd year far outside the table lands on its first month
+example : ht2mjd (tableOf 9) ⟨357915297, 5, 1⟩ = first 9 := by decide +kernel
 
 end C15
